@@ -49,6 +49,30 @@ out.append("""
   item and sub-index, `--emit-crumb` regenerates the scenario, and the allocation cap is active in replay too.
 * `sens:c15_parse_local_env` (`parse_local` honouring `$TZ`): the C15 workload resolved the value `"localtime"` but never
   called `parse_local()`. Added `ResolveLocal` operations.
+
+Second round (agents were told which kinds had already been caught and asked for different ones):
+
+* `seeded/C20-r2c20-m1` (scan stops when the reader's error downcasts to an `io::Error` of kind PermissionDenied) was caught only
+  because the read seam had just been changed to hand back real `std::io::Error::from_raw_os_error` payloads instead of an opaque
+  error type - kept as a design rule: the seam returns what `std::fs::read` would.
+* `seeded/C20-r2c20-m3` (`from_posix_tz` alone honours `$TZDIR`) and `seeded/C15-r2c15-m3` (fallback to a path relative to the
+  *current working directory*, process-global state without any syntactic footprint): invisible through the injected reader. Added the
+  *ambient* operations (fixed list of values through the hard-wired default settings against the real, read-only filesystem, compared
+  with explicit settings + recording `std::fs::read` + the reference resolver), `TZDIR=@CORPUS/right` as a decoy tree, and the working
+  directory as one more piece of global state the environment actor changes; ambient operations are re-executed alone with
+  environment and working directory back at their baseline.
+* `seeded/C15-r2c15-m2` (memo of a rule's transition instants keyed by the rule's days and times but not its offsets): needs two
+  zones with the same rule days/times and different offsets searched in the same year. Added *sibling zones* (a spec shifted by a
+  whole number of half-hours), the US/Australian zone families of the corpus and search fields in their rule-governed future.
+* `seeded/C08-r2c08-m1` (footer/last-transition consistency evaluated at the leap time instead of the Unix time): exposed that the
+  expectation for generated files used the library's own constructor, i.e. moved together with the bug. Added
+  `tzsim/src/refmodel.rs`: an independent judgement of well-formedness (own calendar arithmetic, own evaluation of the rule at one
+  instant, own leap conversion; answers *no position* for degenerate rules, instants on a leap record and instants outside +-6e16)
+  that overrides the constructor where it takes a position, plus generator placement of the last transition within a few seconds of a
+  rule change. `./check selftest` compares the model with the constructor on 300 000 generated specs (0 disagreements on the
+  unchanged tree).
+* `seeded/C08-r2c08-m2`/`m3`, `seeded/C07-r2c07-m3`: new typed corruptions `footer_extra_line`, `footer_junk_char`,
+  `footer_big_number` (a numeric field replaced by 596524 ... 2^63-1) and the first-header count violations `h1_*` of v2+ files.
 """)
 s = open(os.path.join(V, "DESIGN.md")).read()
 i = s.find("## 12. Which checks catch which breakages")
